@@ -100,6 +100,9 @@ type outcome struct {
 	err  error
 	got  string
 	want string
+	// raw: bytes the call returned, kept as they were handed out and looked at only when every call of the case is over
+	// (what a call returned stays its own answer, whatever the Conn reads afterwards)
+	raw []byte
 }
 
 func run(tb ev.TB, c xCase) (labels []string, nontrivial bool) {
@@ -170,7 +173,7 @@ func run(tb ev.TB, c xCase) (labels []string, nontrivial bool) {
 			var t int
 			fmt.Sscanf(r.Body["Key"].(string), "k-%d", &t)
 			return t
-		case 9:
+		case 9, 14:
 			var t int
 			fmt.Sscanf(r.Body["GroupID"].(string), "g-%d", &t)
 			return t
@@ -216,6 +219,8 @@ func run(tb ev.TB, c xCase) (labels []string, nontrivial bool) {
 				p["Offset"], p["Timestamp"], p["ErrorCode"] = int64(tag)+7, int64(tag), int64(0)
 			case 10:
 				body["NodeID"], body["Host"], body["Port"], body["ErrorCode"] = int64(tag), fmt.Sprintf("h-%d", tag), int64(9092), int64(0)
+			case 14:
+				body["ErrorCode"], body["Assignments"] = int64(0), assignmentOf(tag)
 			case 1:
 				p := body["Topics"].([]any)[0].(map[string]any)["Partitions"].([]any)[0].(map[string]any)
 				p["HighWatermark"] = int64(1000000 + tag)
@@ -470,6 +475,10 @@ func run(tb ev.TB, c xCase) (labels []string, nontrivial bool) {
 						var m map[int32]int64
 						m, o.err = conn.VerifOffsetFetch(fmt.Sprintf("g-%d", k.Tag), "t", []int32{0})
 						o.got, o.want = fmt.Sprint(m[0]), fmt.Sprint(k.Tag)
+					case "assignment":
+						// the opaque assignment bytes of a SyncGroup answer, kept by the caller while the Conn goes on being used
+						o.raw, o.err = conn.VerifSyncGroup(fmt.Sprintf("g-%d", k.Tag), "m", 1, nil, nil)
+						o.want = string(assignmentOf(k.Tag))
 					}
 					record(o)
 				}
@@ -711,6 +720,9 @@ func run(tb ev.TB, c xCase) (labels []string, nontrivial bool) {
 		}
 		oks++
 		ev.Count("answered_"+o.c.Kind, 1)
+		if o.c.Kind == "assignment" {
+			o.got = string(o.raw)
+		}
 		want := o.want
 		if want == "record-at-offset" {
 			var off int64
@@ -793,7 +805,7 @@ func run(tb ev.TB, c xCase) (labels []string, nontrivial bool) {
 
 func genCase(t *rapid.T, mode string) xCase {
 	c := xCase{Mode: mode, Brokers: 1, Sched: map[string]int{}}
-	kinds := []string{"offset", "partitions", "write", "create", "coordinator", "committed", "readEarly", "readEarly", "readZ", "readZ", "readLSO"}
+	kinds := []string{"offset", "partitions", "write", "create", "coordinator", "committed", "assignment", "readEarly", "readEarly", "readZ", "readZ", "readLSO"}
 	if mode == "transport" {
 		c.Brokers = rapid.IntRange(1, 3).Draw(t, "brokers")
 		c.IdleMs = rapid.SampledFrom([]int{1, 5, 50, 1000}).Draw(t, "idleMs")
@@ -927,4 +939,15 @@ func TestConnHammer(t *testing.T) {
 		labels, _ := run(t, c)
 		ev.Case(fmt.Sprintf("hammer g%d n%d %v", ng, n, labels), true, append(labels, "hammer")...)
 	})
+}
+
+
+// assignmentOf is the opaque member assignment the fake coordinator hands out for tag (long enough to sit in the
+// middle of a read buffer, short enough to be buffered whole).
+func assignmentOf(tag int) []byte {
+	b := []byte(fmt.Sprintf("[assignment of tag %d]", tag))
+	for len(b) < 40+tag%300 {
+		b = append(b, byte('a'+(len(b)+tag)%26))
+	}
+	return b
 }
